@@ -45,13 +45,16 @@ def make_variant(mut, repo=None):
     return tmp, None
 
 
-def run_mutant(mut, feature_set='default'):
+def run_mutant(mut, feature_set='default', cmdline=None):
     tmp, why = make_variant(mut)
     if tmp is None:
         return {'id': mut['id'], 'status': 'skipped', 'why': why}
     try:
         try:
-            fd, info = extract.extract(feature_set, repo=tmp)
+            if cmdline:
+                fd = extract.extract_variant(tmp, cmdline, feature_set)
+            else:
+                fd, info = extract.extract(feature_set, repo=tmp)
         except extract.InfraError as e:
             return {'id': mut['id'], 'status': 'invalid', 'why': str(e)[-400:]}
         facts = F.Facts(fd)
@@ -75,18 +78,28 @@ def run_mutant(mut, feature_set='default'):
         shutil.rmtree(tmp, ignore_errors=True)
 
 
-def run_all(props=None, ids=None, jobs=4):
+def run_all(props=None, ids=None, jobs=14):
     ms = load_mutants()
     if props:
         ms = [m for m in ms if set(m.get('props', [])) & set(props)]
     if ids:
         ms = [m for m in ms if m['id'] in ids]
     t0 = time.time()
-    # interp caches are keyed by facts identity; variants are independent Facts objects.
-    out = []
-    for m in ms:  # cargo serialises on the target-dir lock anyway
-        out.append(run_mutant(m))
+    if not ms:
+        return [], 0.0
+    cmdline = extract.rustc_cmdline('default')
+    from concurrent.futures import ProcessPoolExecutor
+    with ProcessPoolExecutor(max_workers=min(jobs, len(ms))) as ex:
+        out = list(ex.map(_run_one, [(m, cmdline) for m in ms]))
     return out, time.time() - t0
+
+
+def _run_one(arg):
+    m, cmdline = arg
+    try:
+        return run_mutant(m, cmdline=cmdline)
+    except Exception as e:  # pragma: no cover
+        return {'id': m['id'], 'status': 'invalid', 'why': 'internal: %r' % e}
 
 
 if __name__ == '__main__':
